@@ -160,3 +160,52 @@ pub(crate) fn scripted_next_event<R: Read>(p: &mut Parser<R>) -> Result<Event, i
 		Ok(Event(ev))
 	}
 }
+
+// ---- Drop for Event / Parser: everything libyaml handed out is given back exactly once (C17: no leak, no double free) ----
+static mut EVENT_DELETES: u8 = 0;
+static mut EVENT_DELETE_ARG_OK: bool = true;
+static mut EXPECT_EVENT_AT: *const yaml_event_t = std::ptr::null();
+unsafe fn event_delete_probe(event: *mut yaml_event_t) {
+	unsafe {
+		EVENT_DELETES += 1;
+		if event as *const yaml_event_t != EXPECT_EVENT_AT { EVENT_DELETE_ARG_OK = false; }
+	}
+}
+/// For EVERY event type libyaml can report, dropping the `Event` calls yaml_event_delete exactly once, on that event.
+#[kani::proof]
+#[kani::unwind(2)]
+#[kani::stub(unsafe_libyaml::yaml_event_delete, event_delete_probe)]
+fn event_drop_releases_every_event_type() {
+	let k: u8 = kani::any(); kani::assume(k <= 10);
+	let mut ev: yaml_event_t = unsafe { MaybeUninit::<yaml_event_t>::zeroed().assume_init() };
+	ev.type_ = match k { 0 => YAML_NO_EVENT, 1 => YAML_STREAM_START_EVENT, 2 => YAML_STREAM_END_EVENT, 3 => YAML_DOCUMENT_START_EVENT, 4 => YAML_DOCUMENT_END_EVENT,
+		5 => YAML_ALIAS_EVENT, 6 => YAML_SCALAR_EVENT, 7 => YAML_SEQUENCE_START_EVENT, 8 => YAML_SEQUENCE_END_EVENT, 9 => YAML_MAPPING_START_EVENT, _ => YAML_MAPPING_END_EVENT };
+	{
+		let e = Event(ev);
+		unsafe { EXPECT_EVENT_AT = &e.0 as *const yaml_event_t; }
+		assert!(e.event_type() == ev.type_);
+		// `e` is dropped here
+	}
+	assert!(unsafe { EVENT_DELETES } == 1, "an event handed out by libyaml must be released exactly once, whatever its type");
+	assert!(unsafe { EVENT_DELETE_ARG_OK }, "yaml_event_delete called on something else than the event");
+}
+
+static mut PARSER_DELETES: u8 = 0;
+unsafe fn parser_delete_probe(_parser: *mut yaml_parser_t) { unsafe { PARSER_DELETES += 1; } }
+static mut READER_DROPS: u8 = 0;
+struct DropProbeReader;
+impl Read for DropProbeReader { fn read(&mut self, _buf: &mut [u8]) -> io::Result<usize> { Ok(0) } }
+impl Drop for DropProbeReader { fn drop(&mut self) { unsafe { READER_DROPS += 1; } } }
+/// Dropping a Parser deletes the libyaml parser exactly once and releases the read state (observed through the
+/// reader it owns: dropped exactly once -- neither leaked nor freed twice).
+#[kani::proof]
+#[kani::unwind(3)]
+#[kani::stub(unsafe_libyaml::yaml_parser_delete, parser_delete_probe)]
+fn parser_drop_releases_parser_and_read_state() {
+	let read_state = Box::into_raw(Box::new(ReadState { reader: DropProbeReader, bouncer: Vec::with_capacity(1), error: None }));
+	let raw: Box<yaml_parser_t> = unsafe { Box::new(MaybeUninit::<yaml_parser_t>::zeroed().assume_init()) };
+	let p = Parser { parser: raw, read_state };
+	drop(p);
+	assert!(unsafe { PARSER_DELETES } == 1, "yaml_parser_delete must run exactly once");
+	assert!(unsafe { READER_DROPS } == 1, "the read state (and the reader in it) must be released exactly once with the parser");
+}
